@@ -75,7 +75,7 @@ def testStrict (e : SEnv) (t : PyT) (s : Str) : Bool :=
 
 /-- the live `__EXPLICIT_TYPES__` with `DataType.from_type`; an unknown type name
 makes the entry `none` (see `explicit_types_known`) -/
-def explicitTypes : List (Option PyT × Str) := Tables.explicitTypes.map fun (n, q) => (PyT.ofName n, q)
+def explicitTypes : List (Option PyT × Str) := Tables.explicitTypesDt.map fun (n, q) => (PyT.ofName n, q)
 
 /-- `match_type(val)` for a `str` over a given priority list -/
 def matchTypeIn (e : SEnv) (tbl : List (Option PyT × Str)) (s : Str) : Str :=
